@@ -29,6 +29,7 @@ func init() {
 			ruleLPPipe(r)
 			ruleFilterEffects(r)
 			ruleLineFilterBuilder(r)
+			ruleOffloadProvenance(r)
 		},
 	})
 }
